@@ -20,7 +20,7 @@ pub fn def() -> PropDef {
         shards: |t| t.pick(32, 256),
         run,
         replay,
-        rule: "entry points: Update::decode_v1/v2, StateVector, Snapshot, IdSet (v1,v2), IdMap<String>, Any::decode, Any::from_json, StickyIndex (binary, JSON), MessageReader, AwarenessUpdate, merge_updates_v1/v2, diff_updates_v1/v2 (as update and as state vector), encode_state_vector_from_update_v1/v2. Inputs, enumerated completely: (1) EVERY byte string of length <= 2 (quick) / <= 3 (thorough) to every entry point; (2) for every payload of a corpus of valid payloads of every wire type: every truncation, every single-byte replacement (position x 256), every position overwritten by each of 8 extreme var-int encodings, every prefix(A)+suffix(B) splice inside a wire type; (3) structural extremes (nesting depth 10^5, counts 2^32-1 without data). Oracle per call, in a worker with a counting allocator: returns Ok or Err - no panic, no abort / stack overflow (worker death = verdict), peak heap <= 256*len + 1 MiB and no request beyond the hard cap, <= 4 s, strings in Ok values valid UTF-8, an Ok value can be encoded again (v1 and v2) without panic. distinct_nontrivial = distinct inputs accepted (Ok) by at least one entry point",
+        rule: "entry points: Update::decode_v1/v2, StateVector, Snapshot, IdSet (v1,v2), IdMap<String>, Any::decode, Any::from_json, StickyIndex (binary, JSON), MessageReader, AwarenessUpdate, merge_updates_v1/v2, diff_updates_v1/v2 (as update and as state vector), encode_state_vector_from_update_v1/v2. Inputs, enumerated completely: (1) EVERY byte string of length <= 2 (quick) / <= 3 (thorough) to every entry point; (2) for every payload of a corpus of valid payloads of every wire type: every truncation, every single-byte replacement (position x 256), every position overwritten by each of 8 extreme var-int encodings, every prefix(A)+suffix(B) splice inside a wire type, (thorough) every pair of positions overwritten with every pair from {00,01,7f,80,fe,ff}; (3) structural extremes (nesting depth 10^5, counts 2^32-1 without data). Oracle per call, in a worker with a counting allocator: returns Ok or Err - no panic, no abort / stack overflow (worker death = verdict), peak heap <= 256*len + 1 MiB and no request beyond the hard cap, <= 4 s, strings in Ok values valid UTF-8, an Ok value can be encoded again (v1 and v2) without panic. distinct_nontrivial = distinct inputs accepted (Ok) by at least one entry point",
         assumptions: &[
             "known-finding identity is the panic / abort site (file + function + message class)",
             "memory bound 256 bytes per input byte + 1 MiB (a decoded one-byte block costs a ~200 byte boxed item)",
@@ -522,6 +522,32 @@ fn run(ctx: &mut Ctx) {
                     m.extend_from_slice(e);
                     m.extend_from_slice(&p[pos + 1..]);
                     feed_if(ctx, &eps, &mut idx, &m, "varint-replacement");
+                }
+            }
+            // two-point mutations over a boundary alphabet (thorough)
+            if ctx.tier == Tier::Thorough {
+                const B: [u8; 6] = [0x00, 0x01, 0x7f, 0x80, 0xfe, 0xff];
+                for i in 0..p.len() {
+                    if ctx.out_of_time() {
+                        return;
+                    }
+                    for j in (i + 1)..p.len() {
+                        for a in B {
+                            for b in B {
+                                if a == p[i] || b == p[j] {
+                                    continue;
+                                }
+                                idx += 1;
+                                if !ctx.mine(idx) {
+                                    continue;
+                                }
+                                let mut m = p.clone();
+                                m[i] = a;
+                                m[j] = b;
+                                let _ = feed(ctx, &eps, &m, "two-byte-replacement");
+                            }
+                        }
+                    }
                 }
             }
             // splices inside the group
